@@ -49,12 +49,14 @@ func (s *Segment) getDocStoredOffsets(docNum uint64) (indexOffset, storedOffset,
 		return 0, 0, 0, 0, 0, err
 	}
 
-	metaLenData := s.storedFieldChunkUncompressed[int(storedOffset):int(storedOffset+binary.MaxVarintLen64)]
+	// the varints are read from the rest of the chunk: a short record at
+	// the end of the chunk has fewer than MaxVarintLen64 bytes after it
+	metaLenData := s.storedFieldChunkUncompressed[int(storedOffset):]
 	var read int
 	metaLen, read = binary.Uvarint(metaLenData)
 	n += uint64(read)
 
-	dataLenData := s.storedFieldChunkUncompressed[int(storedOffset+n):int(storedOffset+n+binary.MaxVarintLen64)]
+	dataLenData := s.storedFieldChunkUncompressed[int(storedOffset+n):]
 	dataLen, read = binary.Uvarint(dataLenData)
 	n += uint64(read)
 
